@@ -318,7 +318,7 @@ void rfbScheduleCopyRegion(rfbScreenInfoPtr rfbScreen,sraRegionPtr copyRegion,in
        sraRgnOr(cl->modifiedRegion,modifiedRegionBackup);
        sraRgnDestroy(modifiedRegionBackup);
 
-       if(!cl->enableCursorShapeUpdates) {
+       if(!cl->enableCursorShapeUpdates && cl->screen->cursor) {
           /*
            * n.b. (dx, dy) is the vector pointing in the direction the
            * copyrect displacement will take place.  copyRegion is the
